@@ -82,7 +82,7 @@ func runC11(w *core.World, r *core.Report) {
 							fld = f
 						}
 					}
-					r.Bad("R1", fmt.Sprintf("%s: LookupKey.%s re-sliced without its type byte", core.QName(fn), fld), sl.Pos(),
+					r.Bad("R1", fmt.Sprintf("%s back end: LookupKey.%s re-sliced without its type byte", be.pkg, fld), sl.Pos(),
 						"the leading type byte of the storage key is dropped: records of different data types (and a session's state vs. another session's user data) map to the same storage name")
 				}
 			}
@@ -197,7 +197,7 @@ func runC11(w *core.World, r *core.Report) {
 						confined = true
 					}
 				}
-				r.Check(confined, "R4", core.QName(fn)+": name joined to the store directory", c.Pos(), "separator-free encoding or checked",
+				r.Check(confined, "R4", "db/fs back end: name joined to the store directory", c.Pos(), "separator-free encoding or checked",
 					"the raw storage key (which contains the client-chosen session id and key) is joined to the directory without excluding path separators: a key containing '/..' addresses files outside the store or another record")
 			case isStoragePrimitive(c), n == "os.Open", n == "os.ReadFile", n == "io/ioutil.ReadFile", n == "os.Stat", n == "os.CreateTemp", n == "path.Dir":
 				r.OK("R5", fmt.Sprintf("%s: %s(key-derived)", core.QName(fn), n), c.Pos(), "storage primitive")
